@@ -49,7 +49,10 @@ macro_rules! lms_impl {
                 let e = if deep { e.t("deep", true) } else { e };
                 let sk = &mut k.sk;
                 let mm = msg.clone();
-                match guarded(|| sk.sign(&mut t, &mm).map(|s| s.to_vec())) {
+                let r = guarded(|| sk.sign(&mut t, &mm).map(|s| s.to_vec()));
+                // the key state after the call, as the type's Debug view shows it (the field is private)
+                let e = match leaf_of(&format!("{:?}", k.sk)) { Some(q) => e.n("leaf", q), None => e };
+                match r {
                     Ok(Some(sig)) => { tr.emit(e.s("res", "some").b("sig", &sig)); k.sigs.push((sig, msg)); }
                     Ok(None) => tr.emit(e.s("res", "none")),
                     Err(_) => tr.emit(e.s("res", "panic")),
@@ -116,6 +119,12 @@ lms_impl!(sha256_m32, "sha256_m32", LMS_SHA256_M32_H5_SHA256_N32_W8, 32);
 lms_impl!(sha256_m24, "sha256_m24", LMS_SHA256_M24_H5_SHA256_N24_W8, 24);
 lms_impl!(shake_m32, "shake_m32", LMS_SHAKE_M32_H5_SHAKE_N32_W8, 32);
 lms_impl!(shake_m24, "shake_m24", LMS_SHAKE_M24_H5_SHAKE_N24_W8, 24);
+
+fn leaf_of(dbg: &str) -> Option<i64> {
+    let i = dbg.find("current_leaf: ")? + "current_leaf: ".len();
+    let t: String = dbg[i..].chars().take_while(|c| c.is_ascii_digit()).collect();
+    t.parse::<i64>().ok()
+}
 
 pub fn run(tr: &mut Trace, rng: &mut Rng, script_file: &str, deep: usize) {
     let text = std::fs::read_to_string(script_file).expect("cannot read script file");
